@@ -5,4 +5,4 @@ Extraction "m.ml" xb_add xb_mul xb_div_eucl
   be_val be_min der_decode der_encode parse_sig
   p1363_size p1363_encode p1363_decode p1363_decode_any
   prefix ecdsa_params_ok rsa_ctor_ok rsa_sig_len
-  ecdsa_verify ecdsa_frame ed25519_verify pkcs1_verify pss_verify std_pkcs1 std_pss rfc_pkcs1_verify rfc_pss_verify.
+  ecdsa_verify ecdsa_frame ed25519_verify pkcs1_verify pss_verify std_pkcs1 std_pss rfc_pkcs1_verify rfc_pss_verify go_pss_verify.
